@@ -540,7 +540,12 @@ static int run_history(const struct op* ops, int nops, bool allow_oob) {
   /* "installed with cbor_set_allocs before any item exists": between two histories no item exists, so a client may
    * install a different triple; the library must use the triple installed last, for every request and release */
   if (g_switch_allocators) {
-    if (g_allocator_switches++ & 1) { ALLOC = A_TAGGED; tg_install(); } else { ALLOC = A_ARENA; ar_install(); if (AR_live == 0) ar_reset(); }
+    /* arena, then the eight tagged triples in Gray-code order (consecutive ones differ in exactly one function: only the
+     * malloc, only the realloc, only the free), then arena again */
+    static const unsigned gray[8] = {0, 1, 3, 2, 6, 7, 5, 4};
+    uint64_t k = g_allocator_switches++ % 9;
+    if (k == 0) { ALLOC = A_ARENA; ar_install(); if (AR_live == 0) ar_reset(); }
+    else { ALLOC = A_TAGGED; tg_install_variant(gray[k - 1]); }
   }
   struct mstate m;
   memset(&m, 0, sizeof m);
@@ -1173,6 +1178,26 @@ static void hist_run(void) {
     } else {
       uint64_t nh = O.budget ? O.budget : (O.thorough ? 500000 : 20000);
       for (uint64_t u = 0; u < nh; u++) if ((int)(u % (uint64_t)O.nshards) == O.shard) random_history(u, 60, false);
+      if (g_switch_allocators && O.shard == 0) {
+        /* a triple that keeps the malloc the library started with and replaces only realloc and free */
+        uint8_t desc[2] = {'P', 'T'};
+        if (vh_case(desc, 2)) {
+          pt_install();
+          PT_reallocs = PT_frees = 0;
+          cbor_item_t* a = cbor_new_indefinite_array(), * x = cbor_build_uint8(1);
+          size_t pushed = 0;
+          if (a && x) for (int i = 0; i < 40; i++) pushed += cbor_array_push(a, x);
+          if (a) cbor_decref(&a);
+          if (x) cbor_decref(&x);
+          if (pushed != 40) vh_violation("indefinite-container-refused", "40 pushes under (malloc, counting realloc, counting free): %zu succeeded", pushed);
+          if (PT_reallocs < 6 || PT_frees < 3)
+            vh_violation("call-to-allocator-function-not-installed", "after cbor_set_allocs(malloc, r, f) the library grew an array to 40 members and released everything, yet r was called %llu times and f %llu times: the installed realloc/free are not the ones in use",
+                         (unsigned long long)PT_reallocs, (unsigned long long)PT_frees);
+          VH_COUNT("passthrough_triple_runs", 1);
+          vh_nontrivial(vh_hash(desc, 2));
+          tg_install(); ALLOC = A_TAGGED;
+        }
+      }
     }
     if (g_switch_allocators) vh_count_dyn("allocator_triples_installed_between_histories", g_allocator_switches);
     vh_count_dyn("steps_with_a_shared_item", g_shared_steps);
